@@ -42,6 +42,34 @@ func checkC06(p *Prog, res *Result, tier string) {
 	scanRange := p.ifaceMethod("pkg/backend/scanner", "Scanner", "Range")
 	scanCount := p.ifaceMethod("pkg/backend/scanner", "Scanner", "Count")
 	scanStream := p.ifaceMethod("pkg/backend/scanner", "Scanner", "RangeStream")
+	// a load of the committed revision: the call itself, or a helper of the package whose result derives from one
+	// (everything the helper does happens before it returns, so a dominating helper call is a dominating load)
+	var isLoad func(c ssa.CallInstruction, d int) bool
+	isLoad = func(c ssa.CallInstruction, d int) bool {
+		if p.isCallToMethod(c, r.TSOGetRevision) || p.isCallToMethod(c, r.BGetCur) {
+			return true
+		}
+		sc := c.Common().StaticCallee()
+		if d > 2 || sc == nil || sc.Blocks == nil || sc.Pkg != p.ssaPkg("pkg/backend") {
+			return false
+		}
+		if rs := sc.Signature.Results(); rs.Len() != 1 || !isUint64(rs.At(0).Type()) {
+			return false
+		}
+		for _, b := range sc.Blocks {
+			ret, ok := b.Instrs[len(b.Instrs)-1].(*ssa.Return)
+			if !ok {
+				continue
+			}
+			if derivesFrom(p, ret.Results[0], func(v ssa.Value) bool {
+				cc, ok := v.(*ssa.Call)
+				return ok && cc.Parent() == sc && isLoad(cc, d+1)
+			}) {
+				return true
+			}
+		}
+		return false
+	}
 	for _, m := range []*types.Func{r.BList, r.BCount, r.BGetPartitions, r.BListByStream} {
 		for _, f := range p.implsOf(m) {
 			if f.Pkg != p.ssaPkg("pkg/backend") {
@@ -61,7 +89,7 @@ func checkC06(p *Prog, res *Result, tier string) {
 			}
 			var loads []*ssa.Call
 			for _, c := range callsIn(f) {
-				if cc, ok := c.(*ssa.Call); ok && (p.isCallToMethod(c, r.TSOGetRevision) || p.isCallToMethod(c, r.BGetCur)) {
+				if cc, ok := c.(*ssa.Call); ok && isLoad(c, 0) {
 					loads = append(loads, cc)
 				}
 			}
@@ -98,7 +126,7 @@ func checkC06(p *Prog, res *Result, tier string) {
 					c2 := fmt.Sprintf("%s: header #%d derives only from the pre-scan load", name, j+1)
 					late := derivesFrom(p, h, func(v ssa.Value) bool {
 						c, ok := v.(*ssa.Call)
-						if !ok || !(p.isCallToMethod(c, r.TSOGetRevision) || p.isCallToMethod(c, r.BGetCur)) {
+						if !ok || !isLoad(c, 0) {
 							return false
 						}
 						return !instrDominates(c, sc.(ssa.Instruction))
